@@ -141,7 +141,8 @@ class ConnModel(object):
         if self.depth is not None and self.steps >= self.depth:
             # Past the depth bound the server normally hangs up.  With 'silent_tail' it stays silent instead once a closing
             # handshake has been started by either side: the client's close time-out must then end the connection by itself.
-            if self.cfg.get('silent_tail') and self.hs == 'done' and (self.client_close == 'sent' or self.server_close is not None) and not self.transport_down:
+            if self.cfg.get('silent_tail') and self.hs == 'done' and not self.transport_down and (
+                    self.client_close == 'sent' or self.server_close is not None or self.cfg.get('silent_tail') == 'always'):
                 menu = ['silence']
                 self.sites.add('silent-tail')
             else:
